@@ -66,12 +66,12 @@ namespace bxdecay0 {
     double EbindL;
     double EbindM;
     double Egamma;
-    particle * ip1064  = nullptr;
-    particle * ip570   = nullptr;
-    particle * ipg1064 = nullptr;
-    particle * ipg570  = nullptr;
-    particle * ipe1064 = nullptr;
-    particle * ipe570  = nullptr;
+    int ip1064 = -1; // index in the event (a pointer would dangle when the particle list grows)
+    int ip570 = -1; // index in the event (a pointer would dangle when the particle list grows)
+    int ipg1064 = -1; // index in the event (a pointer would dangle when the particle list grows)
+    int ipg570 = -1; // index in the event (a pointer would dangle when the particle list grows)
+    int ipe1064 = -1; // index in the event (a pointer would dangle when the particle list grows)
+    int ipe570 = -1; // index in the event (a pointer would dangle when the particle list grows)
     double p;
     double p1064;
     double p2;
@@ -200,18 +200,18 @@ namespace bxdecay0 {
     p      = prng_() * (cg + cK + cL + cM);
     if (p <= cg) {
       decay0_gamma(prng_, event_, Egamma, tclev, thlev, tdlev);
-      ipg1064 = &event_.grab_last_particle();
+      ipg1064 = static_cast<int>(event_.get_particles().size()) - 1;
     } else if (p <= cg + cK) {
       decay0_electron(prng_, event_, Egamma - EbindK, tclev, thlev, tdlev);
-      ipe1064 = &event_.grab_last_particle();
+      ipe1064 = static_cast<int>(event_.get_particles().size()) - 1;
       PbAtShell(prng_, event_, 88, 0., 0., tdlev);
     } else if (p <= cg + cK + cL) {
       decay0_electron(prng_, event_, Egamma - EbindL, tclev, thlev, tdlev);
-      ipe1064 = &event_.grab_last_particle();
+      ipe1064 = static_cast<int>(event_.get_particles().size()) - 1;
       PbAtShell(prng_, event_, 15, 0., 0., tdlev);
     } else {
       decay0_electron(prng_, event_, Egamma - EbindM, tclev, thlev, tdlev);
-      ipe1064 = &event_.grab_last_particle();
+      ipe1064 = static_cast<int>(event_.get_particles().size()) - 1;
       PbAtShell(prng_, event_, 3, 0., 0., tdlev);
     }
     goto label_57000;
@@ -274,18 +274,18 @@ namespace bxdecay0 {
     p      = prng_() * (cg + cK + cL + cM);
     if (p <= cg) {
       decay0_gamma(prng_, event_, Egamma, tclev, thlev, tdlev);
-      ipg570 = &event_.grab_last_particle();
+      ipg570 = static_cast<int>(event_.get_particles().size()) - 1;
     } else if (p <= cg + cK) {
       decay0_electron(prng_, event_, Egamma - EbindK, tclev, thlev, tdlev);
-      ipe570 = &event_.grab_last_particle();
+      ipe570 = static_cast<int>(event_.get_particles().size()) - 1;
       PbAtShell(prng_, event_, 88, 0., 0., tdlev);
     } else if (p <= cg + cK + cL) {
       decay0_electron(prng_, event_, Egamma - EbindL, tclev, thlev, tdlev);
-      ipe570 = &event_.grab_last_particle();
+      ipe570 = static_cast<int>(event_.get_particles().size()) - 1;
       PbAtShell(prng_, event_, 15, 0., 0., tdlev);
     } else {
       decay0_electron(prng_, event_, Egamma - EbindM, tclev, thlev, tdlev);
-      ipe570 = &event_.grab_last_particle();
+      ipe570 = static_cast<int>(event_.get_particles().size()) - 1;
       PbAtShell(prng_, event_, 3, 0., 0., tdlev);
     }
     // Angular correlation between gammas and conversion electrons of 1064 and
@@ -294,22 +294,22 @@ namespace bxdecay0 {
     // coefficients are used.
     // Thanks to V.Vasilyev for correcting formula in previous DECAY0 version
     // for case of two conversion electrons emitted.
-    if (ipg1064 != nullptr && ipg570 != nullptr) {
+    if (ipg1064 >= 0 && ipg570 >= 0) {
       a2     = 0.231;
       a4     = -0.023;
       ip1064 = ipg1064;
       ip570  = ipg570;
-    } else if (ipe1064 != nullptr && ipg570 != nullptr) {
+    } else if (ipe1064 >= 0 && ipg570 >= 0) {
       a2     = 0.223;
       a4     = -0.020;
       ip1064 = ipe1064;
       ip570  = ipg570;
-    } else if (ipg1064 != nullptr && ipe570 != nullptr) {
+    } else if (ipg1064 >= 0 && ipe570 >= 0) {
       a2     = 0.275;
       a4     = -0.012;
       ip1064 = ipg1064;
       ip570  = ipe570;
-    } else if (ipe1064 != nullptr && ipe570 != nullptr) {
+    } else if (ipe1064 >= 0 && ipe570 >= 0) {
       a2     = 0.271;
       a4     = -0.010;
       ip1064 = ipe1064;
@@ -317,8 +317,8 @@ namespace bxdecay0 {
     } else {
       return;
     }
-    p1064 = ip1064->get_p();
-    p570  = ip570->get_p();
+    p1064 = event_.grab_particles()[ip1064].get_p();
+    p570  = event_.grab_particles()[ip570].get_p();
     // Rejection method :
   label_3:
     phi1  = twopi * prng_();
@@ -333,8 +333,8 @@ namespace bxdecay0 {
     if (prng_() * (1. + std::abs(a2) + std::abs(a4)) > 1. + a2 * p2 + a4 * p4) {
       goto label_3;
     }
-    ip1064->set_momentum(p1064 * stet1 * std::cos(phi1), p1064 * stet1 * std::sin(phi1), p1064 * ctet1);
-    ip570->set_momentum(p570 * stet2 * std::cos(phi2), p570 * stet2 * std::sin(phi2), p570 * ctet2);
+    event_.grab_particles()[ip1064].set_momentum(p1064 * stet1 * std::cos(phi1), p1064 * stet1 * std::sin(phi1), p1064 * ctet1);
+    event_.grab_particles()[ip570].set_momentum(p570 * stet2 * std::cos(phi2), p570 * stet2 * std::sin(phi2), p570 * ctet2);
     return;
   }
   // end of Bi207.f
